@@ -96,4 +96,31 @@ theorem next_missed_troll :
     (1509233400000000000 : Int) < 1509235200 * 1000000000 ∧ (1509235200 : Int) < 1509242400 := by
   decide
 
+/-! ### termination needs a bound on the size of the shift -/
+
+/-- Termination for ARBITRARY transition tables whose offsets are merely bounded (|off| ≤ 26 h):
+false.  Kept as the statement one might hope for. -/
+def next_terminates_bounded_offsets_statement : Prop :=
+  ∀ (z : Zone), (∀ e ∈ z, -93600 ≤ e.2 ∧ e.2 ≤ 93600) → ∀ (s : Sched) (tn : Int),
+    next s z tn ≠ .fuel
+
+/-- A synthetic zone that jumps from −26 h to +26 h (two local days are skipped). -/
+def skip52 : Zone := [(0, -93600), (1499997600, 93600)]
+
+set_option maxRecDepth 20000 in
+/-- On `skip52` the day loop of the repaired code does not advance: `dayInc` has a fixed point on
+a day that is not the first of the month (both `AddDate(0,0,1)` and `AddDate(0,0,2)` resolve into
+the gap and back), so a schedule that does not match that day spins forever — the model runs out
+of fuel.  Termination therefore needs a bound on the shift (hour zones: one hour; the second `fix:`
+commit handles exactly one skipped day). -/
+theorem next_spins_on_52h_skip :
+    dayInc skip52 1499911200 = 1499911200 ∧ day skip52 1499911200 ≠ 1 ∧
+    next ⟨1, 1, 2, 2, 8190, 9223372036854775935⟩ skip52 1499652000000000000 = .fuel := by
+  refine ⟨by decide, by decide, ?_⟩
+  decide +kernel
+
+theorem next_terminates_bounded_offsets_false : ¬ next_terminates_bounded_offsets_statement := by
+  intro h
+  exact h skip52 (by decide) _ _ next_spins_on_52h_skip.2.2
+
 end Kit.CronSpec
